@@ -253,10 +253,32 @@ Theorem seeded_flagged_missing_pragma_once : forall ls,
 Proof. exact (fun ls H => lint_file_pragma true ls _ (missing_pragma_reports ls H)). Qed.
 Print Assumptions seeded_flagged_missing_pragma_once.
 
-(* REFUTED rule: the third Pragmas message cannot be produced by any file *)
-Theorem pragma_empty_line_after_pragma_once_refuted : forall hdr ls n, ~ In (mkf P n "Empty line after `#pragma once`") (pragma_check hdr ls).
-Proof. exact pragma_empty_line_rule_is_dead. Qed.
-Print Assumptions pragma_empty_line_after_pragma_once_refuted.
+(* an empty line inserted between `#pragma once` and the first #include of a header (l1 = the lines before `#pragma once`:
+   the validator has left the licence comment and has decided nothing yet).  The finding carries the number of the LAST empty
+   line of the file (empty_line_number keeps being overwritten), which is at least the seeded line |l1| + 2; the printed
+   message of this suite has no line number. *)
+Theorem seeded_flagged_pragma_empty_line : forall l1 inc l2,
+  got_pragma (pragma_run (pragma_init true) 1 l1) = None -> report_empty (pragma_run (pragma_init true) 1 l1) = None ->
+  inside (pragma_run (pragma_init true) 1 l1) <> 1 -> inside (pragma_run (pragma_init true) 1 l1) <> 2 ->
+  starts_with pp_include inc = true ->
+  exists n, Z.of_nat (length l1) + 2 <= n
+            /\ In (mkf P n "Empty line after `#pragma once`") (lint_file true (seed_line (S (length l1)) [] (l1 ++ pragma_once :: inc :: l2))).
+Proof.
+  exact (fun l1 inc l2 Hg Hr H1 H2 Hi =>
+    match pragma_empty_line_reports l1 inc l2 Hg Hr H1 H2 Hi with
+    | ex_intro _ n (conj Hn H) => ex_intro _ n (conj Hn (lint_file_pragma true _ _
+        (eq_ind_r (fun y => In _ (pragma_check true y)) H (seed_after_pragma l1 inc l2))))
+    end).
+Qed.
+Print Assumptions seeded_flagged_pragma_empty_line.
+
+Example pragma_empty_line_example :
+  let head := [of_string "/**"; of_string "**/"; []] in
+  got_pragma (pragma_run (pragma_init true) 1 head) = None /\ report_empty (pragma_run (pragma_init true) 1 head) = None
+  /\ inside (pragma_run (pragma_init true) 1 head) = 3
+  /\ pragma_check true (head ++ [pragma_once; of_string "#include <x>"]) = []
+  /\ pragma_check true (head ++ [pragma_once; []; of_string "#include <x>"]) = [mkf P 5 "Empty line after `#pragma once`"].
+Proof. vm_compute. repeat split; reflexivity. Qed.
 
 (* deleting an end-of-region marker from a file whose markers are balanced *)
 Theorem seeded_flagged_region_unclosed : forall hdr l1 x l2,
